@@ -194,7 +194,7 @@ class Frame():
         :return: DataFrame with the ID of the edge, its groun truth stress and the inferred one
         :rtype: pd.DataFrame
         """
-        df = pd.DataFrame.from_dict({beid: big_edge.gt for beid, big_edge in self.big_edges.items()}.items()).rename(columns={0: 'id', 1: 'gt'})
+        df = pd.DataFrame([[beid, big_edge.gt] for beid, big_edge in self.big_edges.items()], columns=['id', 'gt'])
         df['stress'] = [big_edge.tension for big_edge in self.big_edges.values()]
         if not with_border:
             # Only return results that don't belong the edges in the border
